@@ -28,6 +28,8 @@ func init() {
 			ruleNoInPlaceValueMutation(r, []string{enginePkg, metricPkg}, 2) // a stream is the set of records with one label set: a label rewritten in place changes the labels of later records
 			ruleDaemonLog(r)                                                 // no record is lost before the limit is applied: the stream is read through io.ReadFull / io.CopyN
 			ruleLPOffload(r)                                                 // line filters after a stage that rewrites the line are not evaluated by the storage on the old line
+			ruleDistinct(r)
+			ruleDropKeep(r) // the labels a record keeps decide its stream: drop/keep delete exactly the selected labels
 		},
 	})
 }
